@@ -3,6 +3,7 @@
   the fiber that is read (position = index in the sequence the iterator enumerates).
 -/
 import FtProofs.Lemmas.TraceEmit
+import FtProofs.Lemmas.Merge
 set_option linter.unusedSimpArgs false
 set_option linter.unusedVariables false
 namespace Ft.C16
@@ -307,6 +308,69 @@ theorem popItems_src_addr (ok : PopTypesOK cfg) :
       · obtain ⟨i, p, e1, e2⟩ := ih _ ty c pos hty hk' h
         rw [popYield_bpos] at e1
         exact ⟨i + 1, p, by rw [e1]; congr 1; omega, by simpa [yieldsOf] using e2⟩
+
+end
+
+
+/-! ### what the sources yield -/
+
+section
+variable {α β : Type}
+
+theorem yieldsOf_append (a b : List (Step β)) : yieldsOf (a ++ b) = yieldsOf a ++ yieldsOf b := by
+  induction a with
+  | nil => rfl
+  | cons x rest ih => cases x <;> simp [yieldsOf, ih]
+
+theorem yieldsOf_emits (l : List (Item PEmpty)) : yieldsOf (l.map (Step.emit (β := β))) = [] := by
+  induction l with
+  | nil => rfl
+  | cons x rest ih => simpa [yieldsOf] using ih
+
+/-- `and_iterator` yields exactly the two-finger intersection of C04 -/
+theorem andSteps_yields (rank tyA tyB : String) (ta tb : Bool) (ap bp : Nat) (a : Fib Int α) (b : Fib Int β) :
+    yieldsOf (andSteps rank tyA tyB ta tb ap bp a b) = andMerge a b := by
+  fun_induction andSteps rank tyA tyB ta tb ap bp a b with
+  | case1 => simp [yieldsOf, andMerge]
+  | case2 => simp [yieldsOf_append, yieldsOf_emits, yieldsOf, andMerge]
+  | case3 => simp [yieldsOf_append, yieldsOf_emits, yieldsOf, andMerge]
+  | case4 ap bp pa ra ca pb rb ih =>
+    rw [andMerge]; simp [yieldsOf_append, yieldsOf_emits, yieldsOf, ih]
+  | case5 ap bp ca pa ra cb pb rb hne hlt ih =>
+    rw [andMerge]; simp [yieldsOf_append, yieldsOf_emits, yieldsOf, ih, hne, hlt]
+  | case6 ap bp ca pa ra cb pb rb hne hlt ih =>
+    rw [andMerge]; simp [yieldsOf_append, yieldsOf_emits, yieldsOf, ih, hne, hlt]
+
+/-- leader-follower yields every presented leader element, with the follower's stored payload or a default -/
+theorem lfSteps_yields (rankA rankB tyA tyB : String) (ta : Bool) (dfl : β) (b : Fib Int β) :
+    ∀ (a : Fib Int α) (i : Nat),
+      yieldsOf (lfSteps rankA rankB tyA tyB ta dfl b i a) = a.map (fun e => (e.1, (e.2, (posLookup b e.1).getD dfl))) := by
+  intro a
+  induction a with
+  | nil => intro i; rfl
+  | cons e rest ih =>
+    intro i
+    obtain ⟨c, p⟩ := e
+    simp [lfSteps, yieldsOf_append, yieldsOf_emits, yieldsOf, ih]
+
+/-- a projection yields the shifted coordinates inside the interval, up to the first one at or above
+    its upper end -/
+theorem projLoop_yields (srcRank ty : String) (t : Bool) (off : Int) (lo hi : Option Int) :
+    ∀ (a : Fib Int α) (j : Nat),
+      yieldsOf (projLoop srcRank ty t off lo hi j a) =
+        ((a.takeWhile (fun e => !aboveHi hi (e.1 + off))).filter (fun e => inLo lo (e.1 + off))).map
+          (fun e => (e.1 + off, e.2)) := by
+  intro a
+  induction a with
+  | nil => intro j; rfl
+  | cons e rest ih =>
+    intro j
+    obtain ⟨oc, p⟩ := e
+    by_cases h1 : aboveHi hi (oc + off) = true
+    · simp [projLoop, h1, yieldsOf]
+    · by_cases h2 : inLo lo (oc + off) = true
+      · cases t <;> simp [projLoop, h1, h2, yieldsOf, ih]
+      · simp [projLoop, h1, h2, yieldsOf, ih]
 
 end
 
